@@ -275,6 +275,7 @@ void applyOption(TypedArgBase* a, const std::string& slot, const std::string& op
       if (p.at(0) == "lower") { if (k == "d") a->addCheck(pa::lower(std::stod(p.at(1)))); else a->addCheck(pa::lower(std::stoi(p.at(1)))); }
       else if (p.at(0) == "upper") { if (k == "d") a->addCheck(pa::upper(std::stod(p.at(1)))); else a->addCheck(pa::upper(std::stoi(p.at(1)))); }
       else if (p.at(0) == "range") { if (k == "d") a->addCheck(pa::range(std::stod(p.at(1)), std::stod(p.at(2)))); else a->addCheck(pa::range(std::stoi(p.at(1)), std::stoi(p.at(2)))); }
+      else if (p.at(0) == "ivalues") { std::string l; for (size_t j = 1; j < p.size(); ++j) l += (j > 1 ? "," : "") + p[j]; a->addCheck(pa::values(l, true)); }
       else if (p.at(0) == "values") { std::string l; for (size_t j = 1; j < p.size(); ++j) l += (j > 1 ? "," : "") + p[j]; a->addCheck(pa::values(l)); }
       else if (p.at(0) == "minlen") a->addCheck(pa::minLength(std::stoul(p.at(1))));
       else if (p.at(0) == "maxlen") a->addCheck(pa::maxLength(std::stoul(p.at(1))));
